@@ -835,3 +835,58 @@ Proof.
     change (sp_center prec8) with 128; change (sp_center prec12) with 2048;
     repeat split; Z.div_mod_to_equations; lia.
 Qed.
+
+(* ------------------------------------------------------------------ H. the decompressor's own RGB->Y (build_rgb_y_table + rgb_gray_convert of jdcolor.c)
+   is the compressor-side luminance, for ALL r,g,b: same FIX() constants, same ONE_HALF rounding term *)
+Lemma d_ytab_sum_is_ctab_sum p r g b :
+  d_ytab 0 r + d_ytab 1 g + d_ytab 2 b = ctab p c_R_Y_OFF r + ctab p c_G_Y_OFF g + ctab p c_B_Y_OFF b.
+Proof.
+  unfold d_ytab.
+  repeat match goal with
+         | |- context [nth ?k d_rgb_y_entries ?d] =>
+             let v := eval vm_compute in (nth k d_rgb_y_entries d) in change (nth k d_rgb_y_entries d) with v
+         end.
+  cbv beta iota. eval_ctab.
+  repeat match goal with
+         | |- context [fixc ?a ?b ?c] => let v := eval vm_compute in (fixc a b c) in change (fixc a b c) with v
+         end.
+  change (2 ^ (d_scalebits - 1)) with 32768. change (2 ^ (c_scalebits - 1)) with 32768. ring.
+Qed.
+
+Theorem rgb_gray_d_is_luma p t : rgb_gray_d p t = y_of_rgb p (c0 t) (c1 t) (c2 t).
+Proof.
+  unfold rgb_gray_d, y_of_rgb, y_raw. rewrite d_ytab_sum_is_ctab_sum with (p := p). reflexivity.
+Qed.
+
+Theorem decompress_rgb_gray_is_luma :
+  (forall p t, rgb_gray_d p t = y_of_rgb p (c0 t) (c1 t) (c2 t)) /\
+  (forall p t, (p = prec8 \/ p = prec12) -> 0 <= c0 t <= sp_max p -> 0 <= c1 t <= sp_max p -> 0 <= c2 t <= sp_max p ->
+     rgb_gray_d p t = gray_of_rgb p t /\ rgb_gray_d p t = c0 (ycc_of_rgb p t)) /\
+  (forall p w h pitch bu (img : list (list px3)) buf,
+     length img = h -> Forall (fun row => length row = w) img ->
+     Z.of_nat w <= pitch -> (Z.of_nat h - 1) * pitch + Z.of_nat w <= Z.of_nat (length buf) ->
+     let ptrs := rows pitch h bu in
+     let out := rgb_gray_convert_d p img buf ptrs in
+     unpack_gray out ptrs w = map (map (fun t => y_of_rgb p (c0 t) (c1 t) (c2 t))) img /\ length out = length buf /\
+     (forall j, 0 <= j -> (forall i, 0 <= i < Z.of_nat h -> j < i * pitch \/ i * pitch + Z.of_nat w <= j) ->
+        rd out j = rd buf j)).
+Proof.
+  split; [exact rgb_gray_d_is_luma|]. split.
+  - intros p t Hp H0 H1 H2.
+    assert (Hin : forall v, 0 <= v <= sp_max p -> range_in p v = v).
+    { intros v Hv. unfold range_in. destruct Hp as [-> | ->]; cbn [sp_bits prec8 prec12 Z.eqb Pos.eqb]; [reflexivity|].
+      change c_range_mask12 with (Z.ones 12). rewrite Z.land_ones by lia. apply Z.mod_small.
+      change (sp_max prec12) with 4095 in Hv. change (2 ^ 12) with 4096. lia. }
+    assert (E : rgb_gray_d p t = gray_of_rgb p t).
+    { rewrite rgb_gray_d_is_luma. unfold gray_of_rgb. now rewrite !Hin by assumption. }
+    split; [exact E | rewrite E; reflexivity].
+  - intros p w h pitch bu img buf Hh Hw Hpitch Hbuf. cbv zeta. unfold rgb_gray_convert_d.
+    destruct (put_gray_rows_spec w (map (map (rgb_gray_d p)) img) buf (rows pitch h bu)) as (S1 & S2 & S3).
+    + now rewrite map_length, rows_length.
+    + apply Forall_map. eapply Forall_impl; [|exact Hw]. cbv beta. intros. now rewrite map_length.
+    + apply rows_in_bounds; lia.
+    + apply rows_separated; lia.
+    + repeat split; auto.
+      * rewrite S3. apply map_ext. intro row. apply map_ext. intro t. apply rgb_gray_d_is_luma.
+      * intros j Hj Hout. apply S2; auto. now apply outside_rows_rows.
+Qed.
